@@ -34,7 +34,7 @@ def run():
         outside=["rayon scheduling in run_script", "power loss / fsync ordering", "the bodies of the thin wrappers (checked at MIR level where claimed)"])
     src, _ = e1.prepare()
     e1.run_harnesses(rep, "C05", src, specs_for(src, "C05"), jobs=8,
-                     timeout=1500 if tier() == "quick" else 3600)
+                     timeout=1500 if tier() == "quick" else 3600, replayer=e1.fs_replayer("faults", OPS))
     try:
         from obligations import C05_extra
         C05_extra.add(rep, src)
